@@ -7,67 +7,79 @@
    children signed off; samples "has an error") ; Triple (commit x3 or rollback x3) ;
    AfterClose ; SignOff at the parent ; CloseReturn (error iff the context holds one).
    Threads: one closer per scope, a worker finishing tasks, a failer that may append
-   an error to C or stop P.  The event log is what listeners see. *)
+   an error to C or stop P.  The event log is what listeners see.
+   A TASK of a scope may report an error on it until it is handed to DoneTask -- also
+   while the scope's Close is waiting for it (FailWhat "taskErrC" / "taskErrP"); with
+   ClosedGuard (the scope counted as closed from the moment Close began) that report
+   panics: NoTaskPanic is violated. *)
 EXTENDS Naturals, Sequences, FiniteSets, TLC
 
 CONSTANTS Kind,          \* "shared" | "isolated"
-          FailWhat,      \* "none" | "errC" | "errP" | "stopP" | "killC"
-          DoubleClose    \* the closer of C calls Close a second time
+          FailWhat,      \* "none" | "errC" | "errP" | "stopP" | "killC" | "taskErrC" | "taskErrP"
+          DoubleClose,   \* the closer of C calls Close a second time
+          ClosedGuard    \* regression: the scope counts as closed as soon as its Close begins (fixed defect)
 
 Scopes == {"P", "C"}
 Ctx(s) == IF s = "C" /\ Kind = "isolated" THEN "C" ELSE "P"
 
-VARIABLES wg, closing, closed, errs, done, log, cpc, hasErr, ret, wpc, fpc, panicked, watcher
-vars == <<wg, closing, closed, errs, done, log, cpc, hasErr, ret, wpc, fpc, panicked, watcher>>
+VARIABLES wg, closing, closed, errs, done, log, cpc, hasErr, ret, wpc, fpc, panicked, watcher, tpanic
+vars == <<wg, closing, closed, errs, done, log, cpc, hasErr, ret, wpc, fpc, panicked, watcher, tpanic>>
 
 Init == /\ wg = [s \in Scopes |-> IF s = "P" THEN 2 ELSE 1]      \* P: one task + the child; C: one task
         /\ closing = [s \in Scopes |-> FALSE] /\ closed = [s \in Scopes |-> FALSE]
         /\ errs = [c \in {"P", "C"} |-> 0] /\ done = [c \in {"P", "C"} |-> FALSE]
         /\ log = <<>> /\ cpc = [s \in Scopes |-> "begin"] /\ hasErr = [s \in Scopes |-> FALSE]
-        /\ ret = [s \in Scopes |-> "none"] /\ wpc = "taskC" /\ fpc = "go" /\ panicked = 0 /\ watcher = "watch"
+        /\ ret = [s \in Scopes |-> "none"] /\ wpc = "taskC" /\ fpc = "go" /\ panicked = 0 /\ watcher = "watch" /\ tpanic = 0
 
 Ev(s, e) == log' = Append(log, <<s, e>>)
 \* ---- Close(s)
 CloseBegin(s) == /\ cpc[s] = "begin" /\ ~closing[s] /\ closing' = [closing EXCEPT ![s] = TRUE] /\ Ev(s, "bclose")
                  /\ cpc' = [cpc EXCEPT ![s] = "wait"]
-                 /\ UNCHANGED <<wg, closed, errs, done, hasErr, ret, wpc, fpc, panicked, watcher>>
+                 /\ UNCHANGED <<wg, closed, errs, done, hasErr, ret, wpc, fpc, panicked, watcher, tpanic>>
 CloseWaited(s) == /\ cpc[s] = "wait" /\ wg[s] = 0 /\ hasErr' = [hasErr EXCEPT ![s] = errs[Ctx(s)] > 0]
                   /\ cpc' = [cpc EXCEPT ![s] = "triple"]
-                  /\ UNCHANGED <<wg, closing, closed, errs, done, log, ret, wpc, fpc, panicked, watcher>>
+                  /\ UNCHANGED <<wg, closing, closed, errs, done, log, ret, wpc, fpc, panicked, watcher, tpanic>>
 Triple(s) == /\ cpc[s] = "triple"
              /\ log' = log \o (IF hasErr[s] THEN << <<s, "brollback">>, <<s, "rollback">>, <<s, "arollback">> >>
                                ELSE << <<s, "bcommit">>, <<s, "commit">>, <<s, "acommit">> >>)
              /\ cpc' = [cpc EXCEPT ![s] = "after"]
-             /\ UNCHANGED <<wg, closing, closed, errs, done, hasErr, ret, wpc, fpc, panicked, watcher>>
+             /\ UNCHANGED <<wg, closing, closed, errs, done, hasErr, ret, wpc, fpc, panicked, watcher, tpanic>>
 AfterClose(s) == /\ cpc[s] = "after" /\ Ev(s, "aclose") /\ cpc' = [cpc EXCEPT ![s] = "signoff"]
-                 /\ UNCHANGED <<wg, closing, closed, errs, done, hasErr, ret, wpc, fpc, panicked, watcher>>
+                 /\ UNCHANGED <<wg, closing, closed, errs, done, hasErr, ret, wpc, fpc, panicked, watcher, tpanic>>
 SignOff(s) == /\ cpc[s] = "signoff"
               /\ wg' = IF s = "C" THEN [wg EXCEPT !["P"] = @ - 1] ELSE wg
               /\ closed' = [closed EXCEPT ![s] = TRUE]
               /\ ret' = [ret EXCEPT ![s] = IF errs[Ctx(s)] > 0 THEN "err" ELSE "nil"]
               /\ cpc' = [cpc EXCEPT ![s] = IF s = "C" /\ DoubleClose THEN "again" ELSE "end"]
-              /\ UNCHANGED <<closing, errs, done, log, hasErr, wpc, fpc, panicked, watcher>>
+              /\ UNCHANGED <<closing, errs, done, log, hasErr, wpc, fpc, panicked, watcher, tpanic>>
 \* a second Close is refused loudly and fires nothing
 CloseAgain(s) == /\ cpc[s] = "again" /\ panicked' = panicked + 1 /\ cpc' = [cpc EXCEPT ![s] = "end"]
-                 /\ UNCHANGED <<wg, closing, closed, errs, done, log, hasErr, ret, wpc, fpc, watcher>>
-\* ---- worker: finishes the task of C, then the task of P
-Worker == \/ /\ wpc = "taskC" /\ wg' = [wg EXCEPT !["C"] = @ - 1] /\ wpc' = "taskP"
-             /\ UNCHANGED <<closing, closed, errs, done, log, cpc, hasErr, ret, fpc, panicked, watcher>>
-          \/ /\ wpc = "taskP" /\ wg' = [wg EXCEPT !["P"] = @ - 1] /\ wpc' = "end"
-             /\ UNCHANGED <<closing, closed, errs, done, log, cpc, hasErr, ret, fpc, panicked, watcher>>
+                 /\ UNCHANGED <<wg, closing, closed, errs, done, log, hasErr, ret, wpc, fpc, watcher, tpanic>>
+\* ---- worker: finishes the task of C, then the task of P; a task may first report an error on its scope
+TaskReport(s, next) == /\ IF ClosedGuard /\ closing[s]
+                          THEN tpanic' = tpanic + 1 /\ UNCHANGED <<errs, done>>
+                          ELSE /\ errs' = [errs EXCEPT ![Ctx(s)] = @ + 1] /\ done' = [done EXCEPT ![Ctx(s)] = TRUE] /\ UNCHANGED tpanic
+                       /\ wpc' = next
+                       /\ UNCHANGED <<wg, closing, closed, log, cpc, hasErr, ret, fpc, panicked, watcher>>
+Worker == \/ /\ wpc = "taskC" /\ FailWhat = "taskErrC" /\ TaskReport("C", "taskC2")
+          \/ /\ (wpc = "taskC2" \/ (wpc = "taskC" /\ FailWhat # "taskErrC")) /\ wg' = [wg EXCEPT !["C"] = @ - 1] /\ wpc' = "taskP"
+             /\ UNCHANGED <<closing, closed, errs, done, log, cpc, hasErr, ret, fpc, panicked, watcher, tpanic>>
+          \/ /\ wpc = "taskP" /\ FailWhat = "taskErrP" /\ TaskReport("P", "taskP2")
+          \/ /\ (wpc = "taskP2" \/ (wpc = "taskP" /\ FailWhat # "taskErrP")) /\ wg' = [wg EXCEPT !["P"] = @ - 1] /\ wpc' = "end"
+             /\ UNCHANGED <<closing, closed, errs, done, log, cpc, hasErr, ret, fpc, panicked, watcher, tpanic>>
 \* ---- failer: an error / kill / stop before the addressed scope's own Close began
 Failer == /\ fpc = "go" /\ fpc' = "end"
           /\ CASE FailWhat = "errC" /\ ~closing["C"] -> errs' = [errs EXCEPT ![Ctx("C")] = @ + 1] /\ done' = [done EXCEPT ![Ctx("C")] = TRUE]
                [] FailWhat = "killC" /\ ~closing["C"] -> errs' = [errs EXCEPT ![Ctx("C")] = @ + 1] /\ done' = [done EXCEPT ![Ctx("C")] = TRUE]
                [] FailWhat = "errP" /\ ~closing["P"] -> errs' = [errs EXCEPT !["P"] = @ + 1] /\ done' = [done EXCEPT !["P"] = TRUE]
                [] FailWhat = "stopP" /\ ~closing["P"] -> done' = [done EXCEPT !["P"] = TRUE] /\ UNCHANGED errs
-               [] OTHER -> UNCHANGED <<errs, done>>
-          /\ UNCHANGED <<wg, closing, closed, log, cpc, hasErr, ret, wpc, panicked, watcher>>
+               [] OTHER -> UNCHANGED <<errs, done, tpanic>>
+          /\ UNCHANGED <<wg, closing, closed, log, cpc, hasErr, ret, wpc, panicked, watcher, tpanic>>
 \* ---- the isolated context's watcher: parent done => child killed (parent has errors) or stopped
 Watch == /\ Kind = "isolated" /\ watcher = "watch" /\ done["P"] /\ watcher' = "fired"
          /\ done' = [done EXCEPT !["C"] = TRUE]
          /\ errs' = IF errs["P"] > 0 /\ ~done["C"] THEN [errs EXCEPT !["C"] = @ + 1] ELSE errs
-         /\ UNCHANGED <<wg, closing, closed, log, cpc, hasErr, ret, wpc, fpc, panicked>>
+         /\ UNCHANGED <<wg, closing, closed, log, cpc, hasErr, ret, wpc, fpc, panicked, tpanic>>
 AllEnd == \A s \in Scopes : cpc[s] = "end"
 Next == \/ \E s \in Scopes : CloseBegin(s) \/ CloseWaited(s) \/ Triple(s) \/ AfterClose(s) \/ SignOff(s) \/ CloseAgain(s)
         \/ Worker \/ Failer \/ Watch \/ (AllEnd /\ UNCHANGED vars)
@@ -90,5 +102,9 @@ SharedFailsParent == (Kind = "shared" /\ FailWhat \in {"errC", "killC"} /\ fpc =
 IsolatedFailsAlone == (Kind = "isolated" /\ FailWhat \in {"errC", "killC"}) => errs["P"] = 0
 DoubleCloseRefused == (cpc["C"] = "end" /\ DoubleClose) => (panicked = 1 /\ EachOnce)
 ParentStopReachesIsolated == (Kind = "isolated" /\ FailWhat \in {"stopP", "errP"}) => <>(done["P"] => done["C"])
+NoTaskPanic == tpanic = 0
+\* an error reported by a task is held when the wait ends: the scope that waited for it rolls back
+TaskErrorRollsBack == /\ (FailWhat = "taskErrC" /\ ~ClosedGuard => Pos("C", "commit") = {})
+                      /\ (FailWhat = "taskErrP" /\ ~ClosedGuard => Pos("P", "commit") = {})
 Terminates == <>AllEnd
 =============================================================================
